@@ -64,6 +64,16 @@ def roundtrip(ctx, d):
                 break
         if not out and back != loc:
             out.append((f'{P}/roundtrip-not-equal', f'{d} -> {s!r} -> {back}'))
+        if not out:
+            # what was parsed belongs to the caller: changing it does not change what the same string parses to next time
+            for e in ELEMENTS:
+                setattr(back, e, 'vf-changed' if getattr(back, e) is None else None)
+            again = SdcLocation.from_scope_string(s)
+            for e in ELEMENTS:
+                if getattr(again, e) != d[e]:
+                    out.append((f'{P}/roundtrip-second-parse-differs/{e}',
+                                f'{s!r} parsed, the result modified, parsed again: {e}={getattr(again, e)!r}, location is {d}'))
+                    break
     ctx.case(d, _nontrivial_values(d), 'roundtrip', classes=(f'set{sum(v is not None for v in d.values())}',))
     return out
 
@@ -74,7 +84,8 @@ _MDIB_XML = None
 def published_scope(d, history=()):
     """The location scope a provider MDIB publishes after set_location(d).  history: earlier locations of the device and
     how the final one is applied - [[location, 'new' | 'in_place'], ...]: 'new' = set_location (a new associated state),
-    'in_place' = the associated state is updated inside a context state transaction with update_from_sdc_location."""
+    'in_place' = the associated state is updated inside a context state transaction with update_from_sdc_location,
+    'reassoc' = d was the first location, the others followed, then d's (disassociated) state is associated again."""
     import sdc11073.definitions_sdc  # noqa: F401
     from sdc11073.mdib import ProviderMdib
     from sdc11073.provider.scopesfactory import mk_scopes
@@ -83,7 +94,13 @@ def published_scope(d, history=()):
         _MDIB_XML = W.fixture('mdib_two_mds.xml')
     mdib = ProviderMdib.from_string(_MDIB_XML)
     loc_descr = sorted(x.Handle for x in mdib.descriptions.objects if type(x).__name__ == 'LocationContextDescriptorContainer')
-    steps = [[h[0], 'new'] for h in history] + [[d, history[-1][1] if history else 'new']]
+    final_mode = history[-1][1] if history else 'new'
+    if final_mode == 'reassoc':
+        # d is the first location of the device; after the others, the state that d created is associated again
+        steps = [[d, 'new']] + [[h[0], 'new'] for h in history]
+    else:
+        steps = [[h[0], 'new'] for h in history] + [[d, final_mode]]
+    first_state = None
     for i, (loc, mode) in enumerate(steps):
         assoc = [x for x in mdib.context_states.descriptor_handle.get(loc_descr[0], [])
                  if x.ContextAssociation == mdib.data_model.pm_types.ContextAssociation.ASSOCIATED]
@@ -92,6 +109,20 @@ def published_scope(d, history=()):
                 mgr.get_context_state(assoc[0].Handle).update_from_sdc_location(_loc(loc))
         else:
             mdib.xtra.set_location(_loc(loc), location_context_descriptor_handle=loc_descr[0])
+        if i == 0:
+            first_state = [x.Handle for x in mdib.context_states.descriptor_handle.get(loc_descr[0], [])
+                           if x.ContextAssociation == mdib.data_model.pm_types.ContextAssociation.ASSOCIATED][0]
+    if final_mode == 'reassoc' and history:
+        pm = mdib.data_model.pm_types
+        with mdib.context_state_transaction() as mgr:
+            for x in list(mdib.context_states.descriptor_handle.get(loc_descr[0], [])):
+                if x.ContextAssociation == pm.ContextAssociation.ASSOCIATED and x.Handle != first_state:
+                    cur = mgr.get_context_state(x.Handle)
+                    cur.ContextAssociation = pm.ContextAssociation.DISASSOCIATED
+                    cur.UnbindingMdibVersion = mdib.mdib_version + 1
+            old = mgr.get_context_state(first_state)
+            old.ContextAssociation = pm.ContextAssociation.ASSOCIATED
+            old.BindingMdibVersion = mdib.mdib_version + 1
     scopes = mk_scopes(mdib)
     return [s for s in scopes.text if s.lower().startswith('sdc.ctxt.loc:')], scopes
 
@@ -236,7 +267,7 @@ def shard(ctx, which, n):
     if which == 'roundtrip':
         R.hyp_campaign(ctx, which, st_location_dict(min_set=0), lambda d: roundtrip(ctx, d), n)
     elif which == 'containment':
-        earlier = st.lists(st.tuples(st_location_dict(), st.sampled_from(['new', 'in_place', 'in_place'])).map(list), max_size=2)
+        earlier = st.lists(st.tuples(st_location_dict(), st.sampled_from(['new', 'in_place', 'in_place', 'reassoc'])).map(list), max_size=2)
         R.hyp_campaign(ctx, which, st.tuples(st_location_dict(), st_value(), earlier).map(list), lambda c: containment(ctx, c), n)
     else:
         R.hyp_campaign(ctx, which, st_filter_case(), lambda c: filtering(ctx, c), n)
